@@ -259,6 +259,24 @@ def t_wiring_ctor(T, tier):
                       z3.And(*[z3.Or(*[t == x for t in got]) if got else z3.BoolVal(False) for x in (v1, v2, v3)]))
     T.explore(w, run, '__init__')
 
+    def run2(it):
+        # metadata / columns handed over from ANOTHER grid (bound metadata objects, as slices, filter() and callers copying a header do): what was
+        # checked against that grid's version must be checked again against this one's
+        del seen[:]
+        v1, v2 = (it.ctx.fresh(n, V) for n in ('mv', 'cv1'))
+        cls = w.class_ref(extract.module(GMOD), 'Grid')
+        g0 = it.call(cls, [], {'version': 'OTHER', 'metadata': {'m': SVal(v1)}, 'columns': [('c1', {'t': SVal(v2)})]})
+        del seen[:]
+        for label, kw in (('the_objects', {'metadata': g0.fields['metadata'], 'columns': g0.fields['column']}),):
+            g = it.call(cls, [], dict(kw, version='VERSION'))
+            got = [a[1].term for a in seen if len(a) == 2 and isinstance(a[1], SVal) and a[0] is g]
+            it.ctx.oblige('Grid.__init__/ensures.values_taken_over_from_another_grid_are_validated_by_this_grid',
+                          z3.And(*[z3.Or(*[t == x for t in got]) if got else z3.BoolVal(False) for x in (v1, v2)]))
+            md = g.fields['metadata']
+            it.ctx.oblige('Grid.__init__/ensures.own_metadata_object(not_shared_with_the_other_grid)',
+                          z3.BoolVal(isinstance(md, SObj) and md is not g0.fields['metadata'] and md.fields['_validate_fn'].selfv is g))
+    T.explore(w, run2, '__init__/from-another-grid')
+
 
 # ------------------------------------------------------------------ writers: refuse 3.0-only kinds iff version < 3.0
 LEAVES = ['dump_bool', 'dump_ref', 'dump_bin', 'dump_xstr', 'dump_uri', 'dump_str', 'dump_date_time', 'dump_time', 'dump_date', 'dump_coord',
